@@ -11,7 +11,7 @@ var prefixes = []string{"-", "a", "ab", "abc", "abcd", "b", "b1", "c/", "c/x", "
 
 func main() {
 	hlib.Guarded(func(run *hlib.Run) {
-		run.Rule = "rings of 1..8 real LocalNodes (adversarial ids), populated through random entry nodes with simple values and prefix children over 12 keys that share prefixes / are prefixes of each other (plus deletes and child removals so that some keys hold only one kind or nothing), optionally followed by a join and a leave, repaired to a fixpoint; then ListKeys for 14 prefixes (empty, shared, nested, absent) from every member; non-trivial = distinct (ring, content, start, prefix) with at least two members"
+		run.Rule = "rings of 1..8 real LocalNodes (adversarial ids) and one ring of 11..16 members per run (more nodes than the listing's concurrent fan-out), populated through random entry nodes with simple values and prefix children over 12 keys that share prefixes / are prefixes of each other (plus deletes and child removals so that some keys hold only one kind or nothing), optionally followed by a join and a leave, repaired to a fixpoint; then ListKeys for 14 prefixes (empty, shared, nested, absent) from every member; non-trivial = distinct (ring, content, start, prefix) with at least two members"
 		rng := hlib.NewRng(run.Seed)
 		if run.Replay != "" {
 			s := ringh.NewSession(run, rng)
@@ -36,6 +36,9 @@ func main() {
 			n := 1 + rng.Intn(8)
 			if c == 0 {
 				n = 1
+			}
+			if c == 2 {
+				n = 11 + rng.Intn(6) // more members than the fan-out of the ring-wide listing runs at once
 			}
 			backend := "memory"
 			if c%2 == 1 {
